@@ -122,6 +122,8 @@ func replyOf(f *hx.Fetch, a ans) *hx.Reply {
 		rep.Abort = true
 	case "truncate":
 		rep.Truncate = true
+	case "stall":
+		rep.Stall = true
 	}
 	return rep
 }
@@ -351,7 +353,9 @@ func (m *entryModel) burstCheck(now int64, results []*hx.Result, rawFetches []*h
 	return "", ""
 }
 
-func failingKind(k string) bool { return k == "abort" || k == "truncate" || k == "hang" }
+func failingKind(k string) bool {
+	return k == "abort" || k == "truncate" || k == "hang" || k == "stall"
+}
 
 func labelsOf(results []*hx.Result) []string {
 	out := make([]string, len(results))
